@@ -33,10 +33,14 @@ Shapes == << <<1>>, <<2, 1>>, <<1, 2, 3>>, <<3, 1>>, <<1, 1>>, <<2, 3>> >>
 RowOf(i, shape, N) == [k \in 1..Len(shape) |-> ((i + ((shape[k] - 1) % (N - 1))) % N) + 1]
 ListsOf(a, b, N) == [i \in 1..N |-> RowOf(i, Shapes[((a + b * i) % NShapes) + 1], N)]
 WVals == <<0 - 2, 0 - 1, 1, 2, 3>>
-\* weight pattern wp: 0 none, 1 all equal (must reproduce the plain mean), 2.. signed
+\* weight pattern wp: 0 none, 1 all equal (must reproduce the plain mean), 2, 3 signed,
+\* 4 all positive in the first frame of the file and signed from the second frame on
 WeightsOf2(nb, wp, f) ==
   IF wp = 0 THEN << >>
-  ELSE [i \in 1..Len(nb) |-> [k \in 1..Len(nb[i]) |-> IF wp = 1 THEN 2 ELSE WVals[((i + 2 * k + wp + f) % 5) + 1]]]
+  ELSE [i \in 1..Len(nb) |-> [k \in 1..Len(nb[i]) |->
+          IF wp = 1 THEN 2
+          ELSE IF wp = 4 /\ f = 1 THEN 1 + ((i + 2 * k) % 3)
+          ELSE WVals[((i + 2 * k + wp + f) % 5) + 1]]]
 
 FrameOf(t, H, m, nmax, pi, a, b, wp, f) ==
   LET nb == ListsOf(a, b, 4) IN
@@ -45,7 +49,7 @@ FrameOf(t, H, m, nmax, pi, a, b, wp, f) ==
 LsOf(a) == IF Quick THEN {l \in 1..12 : (l + a) % 3 = 0} ELSE 1..12
 
 InitFree ==
-  \E pi \in 1..3, ci \in 1..Len(FreeCells), m \in FreeMasks, a \in 0..5, wp \in 0..(IF Quick THEN 2 ELSE 3),
+  \E pi \in 1..3, ci \in 1..Len(FreeCells), m \in FreeMasks, a \in 0..5, wp \in (IF Quick THEN {0, 1, 2, 4} ELSE 0..4),
      b \in (IF Quick THEN {1} ELSE {1, 2, 3}) :
     LET nmax == IF a % 3 = 0 THEN 2 ELSE 10
         bb   == IF Quick THEN (a % 2) + 1 ELSE b
